@@ -356,13 +356,13 @@ def generate(tier, seed):
     for coords, data, weights, kw in bm_malformed(vd):
         cases.append(make_bm_case(vd, [c.copy() for c in coords], [d.copy() for d in data],
                                   None if weights is None else [w.copy() for w in weights], kw, "bm-malformed", expect_valid=False))
-    n_rand = 300 if tier == "quick" else 3600
+    n_rand = 300 if tier == "quick" else 2800
     modes = ["unweighted", "uncertainty", "wvariance", "unweighted", "uncertainty", "wvariance", "reject"]
     for i in range(n_rand):
         mode = modes[i % len(modes)]
         coords, data, weights, kw = random_bm_config(rnd, vd, i, mode)
         cases.append(make_bm_case(vd, coords, data, weights, kw, "bm-" + mode))
-    cases.extend(v2w_cases(rnd, vd, 250 if tier == "quick" else 3000))
+    cases.extend(v2w_cases(rnd, vd, 250 if tier == "quick" else 2400))
     return cases
 
 
